@@ -81,7 +81,7 @@ impl Prop for ReadModel {
         let small = (gen::input_and_cap(f, gen::any_input(f, false)), gen::policy_permissive(), gen::script(), mode3())
             .prop_map(|((input, cap), policy, script, mode)| Case { input, cfg: Cfg { cap, policy, script }, mode });
         // tens of kilobytes, hundreds of records, capacities up to the 64 KiB default and beyond
-        let big = (gen::big_input(f), gen::big_cap(), gen::policy_permissive(), prop_oneof![2 => Just(vec![]), 1 => Just(vec![4096u16]), 1 => Just(vec![1000u16, 7, 65535])], mode3())
+        let big = (prop_oneof![5 => gen::big_input(f), 1 => gen::exact_len_doc(f)], gen::big_cap(), gen::policy_permissive(), prop_oneof![2 => Just(vec![]), 1 => Just(vec![4096u16]), 1 => Just(vec![1000u16, 7, 65535])], mode3())
             .prop_map(|(input, cap, policy, chunks, mode)| Case { input, cfg: Cfg { cap, policy, script: Script { chunks, ..Default::default() } }, mode });
         boxed(prop_oneof![30 => small, 1 => big])
     }
